@@ -14,8 +14,8 @@ def gen(w, rng, tier):
     per = 2 if tier == "quick" else 12
     for t in w.withref():
         n = t["n"]
-        for i in range(n):
-            for j in range(n):
+        for (i, j) in w.pairs(t, rng):
+            if True:
                 ams = amounts(w.be, rng, 3)
                 for _ in range(per):
                     la, a = rng.choice(ams)
